@@ -1509,7 +1509,8 @@ def rule_F13(prog):
                 grows = find_nodes(arm["body"], lambda n: n["k"] == "mcall" and n["name"] in ("grow_right", "grow_left"))
                 r.instances += 1
                 want = "new_range" if tags[0] == "Insert" else "old_range"
-                got = [origin(g["args"][0]) for g in grows if g["args"]]
+                lets = _lets(fn)
+                got = [origin_deep(g["args"][0], lets) for g in grows if g["args"]]
                 ok = bool(got) and all(re.search(r"\.%s\(\)\.len\(\)$" % want, x) for x in got)
                 r.ob(ok, "%s arm (%s, %s): grows by %s" % (fn.name, tags[0], tags[1], got))
                 if not ok:
